@@ -74,13 +74,19 @@ pub fn clamp_i32(x: i64) -> i64 {
     x.clamp(-2_147_000_000, 2_147_000_000)
 }
 
+/// A time for TLC (32-bit integers): [seconds mod 10^9, nanoseconds, seconds div 10^9] -- exact for
+/// every i64 second the way clamping was not; the specification only compares times for equality.
+pub fn mt_json(sec: i64, nanos: u32) -> Value {
+    json!([sec.rem_euclid(1_000_000_000), nanos.min(2_000_000_000), clamp_i32(sec.div_euclid(1_000_000_000))])
+}
+
 fn entry_json(e: &RawEntry) -> Value {
     let pv = apath_valid(&e.apath);
     json!({
         "p": comps_of(&e.apath),
         "pv": pv,
         "k": e.kind,
-        "mt": [clamp_i32(e.mtime), e.mtime_nanos.min(2_000_000_000)],
+        "mt": mt_json(e.mtime, e.mtime_nanos),
         "mode": e.unix_mode.map(|m| m as i64).unwrap_or(-1),
         "u": e.user.clone().unwrap_or_default(),
         "g": e.group.clone().unwrap_or_default(),
